@@ -15,12 +15,17 @@ from ..simfs import SimFS, Policy
 from ..swarm import neutral_read_kw, fix_kw
 
 SPELL = {
-    "V": ["~V", "~Version", "~Version Information", "~VERSION INFORMATION SECTION", "~V ------"],
-    "W": ["~W", "~Well", "~Well Information Block", "~WELL INFORMATION", "~W ----------"],
-    "C": ["~C", "~Curve", "~Curve Information", "~CURVE INFORMATION BLOCK", "~C ------"],
-    "P": ["~P", "~Parameter", "~Parameter Information", "~PARAMETER INFORMATION", "~Params ----"],
-    "O": ["~O", "~Other", "~Other Information", "~OTHER", "~O ------"],
-    "A": ["~A", "~ASCII", "~Ascii Log Data", "~ASCII LOG DATA", "~A  DEPTH  K1"],
+    # word + trailing text, text glued to the letter or word, and (for ~V/~W/~A, whose recognition goes by the letter alone)
+    # titles that mention _DATA / _PARAMETER / _DEFINITION
+    "V": ["~V", "~Version", "~Version Information", "~VERSION INFORMATION SECTION", "~V ------", "~V------", "~VERSION-INFO", "~VERSION_DEFINITION",
+          "~Version Information (see the LOG_PARAMETER block)"],
+    "W": ["~W", "~Well", "~Well Information Block", "~WELL INFORMATION", "~W ----------", "~W----", "~WELLINFO", "~Well_Data", "~WELL_PARAMETER",
+          "~Well Information - see also the LOG_PARAMETER block"],
+    "C": ["~C", "~Curve", "~Curve Information", "~CURVE INFORMATION BLOCK", "~C ------", "~C------", "~CURVEINFO"],
+    "P": ["~P", "~Parameter", "~Parameter Information", "~PARAMETER INFORMATION", "~Params ----", "~P----", "~PARAMETERINFO"],
+    "O": ["~O", "~Other", "~Other Information", "~OTHER", "~O ------", "~O----", "~OTHERINFO"],
+    "A": ["~A", "~ASCII", "~Ascii Log Data", "~ASCII LOG DATA", "~A  DEPTH  K1", "~A--------", "~ASCIIDATA", "~Ascii-log-data", "~ASCII_LOG_DATA",
+          "~ADATA K0 K1"],
 }
 CUSTOM = ["~Xtra", "~Zone tops", "~Bit record", "~Tops", "~xtra", "~Remarks area", "~Units table", "~Quality",
           "~TOPS_DATA", "~Mud_database", "~Run_1 info", "~Log_definition", "~zone_data", "~Inclinometry_Datafile", "~Tops_Data"]
